@@ -56,7 +56,7 @@ def body(c, ctx):
     dtype = np.complex128 if cplx else np.float64
     sig = dict(basis=r['kind'])
     lab = f"{ge.label(c['eu'])} x {ge.label(c['ev'])} on {desc['cls']}"
-    ctx.cls(desc['cls'], 'basis:' + r['kind'], 'trial!=test' if c['ev'] != c['eu'] else 'trial==test',
+    ctx.cls(desc['cls'], 'basis:' + r['kind'], 'via:' + r.get('via', 'direct'), 'trial!=test' if c['ev'] != c['eu'] else 'trial==test',
             'complex' if cplx else 'real', f'nthreads={c["nthreads"]}', 'fam:' + (ge.info(c['eu']) or {'family': 'composite'})['family'])
     ctx.nt(c['ev'] != c['eu'] or not gi.symmetric(tree) or r['kind'] != 'cell' or sv != su)
     rng = np.random.RandomState(c['seed'])
@@ -102,6 +102,16 @@ def body(c, ctx):
     if A.shape != (vb.N, ub.N):
         ctx.fail('shape', f'{A.shape} vs (N_test, N_trial) = ({vb.N}, {ub.N}) | {lab}', **sig)
         return
+    if r.get('via', 'direct') != 'direct':
+        # a basis obtained by with_element / with_elements / boundary / an explicit quadrature is the basis the constructor gives
+        ub0 = gb._build_direct(m, build_element(c['eu']), r, side=su)
+        vb0 = gb._build_direct(m, build_element(c['ev']), r, side=sv) if (c['ev'] != c['eu'] or sv != su) else ub0
+        A0 = BilinearForm(form2, dtype=dtype).assemble(ub0, vb0, **({'f': fvec.copy()} if gi.uses(tree, 'param') and fm != 'scalar' else fkw(fm)))
+        Aa = BilinearForm(form2, dtype=dtype).assemble(ub, vb, **({'f': fvec.copy()} if gi.uses(tree, 'param') and fm != 'scalar' else fkw(fm)))
+        if A0.shape != Aa.shape or abs(A0 - Aa).max() > 1e-12 * (1.0 + abs(A0).max()):
+            ctx.fail('derived_basis_differs', f'basis obtained via {r["via"]} assembles a different matrix than the directly constructed one '
+                     f'({abs(A0 - Aa).max() if A0.shape == Aa.shape else "shape"}) | {lab}', via=r['via'], **sig)
+            return
     # the functional is assembled on the trial basis: BilinearForm takes x, h, n from it as well
     J = Functional(form0, dtype=dtype).assemble(ub, uh=uh, vh=vh, **fkw(fref))
     Jabs = float(np.abs(Functional(form0abs).assemble(ub, uh=uh, vh=vh, **fkw(fref))))
